@@ -540,6 +540,29 @@ theorem handleRequest_inv (s : Sess) (sid : String) (num : Int) (inv : SessInv s
   · exact fire_inv _ sid _ _ _ inv1 (by simp [ainsert])
   · exact ⟨inv1, rfl⟩
 
+/-- the expiry sweep closes only channels of registrations that are in the map, whose channel is
+open by the invariant: never a double close, whatever ids are reported done and in whatever order -/
+theorem expire_inv (done : List String) : ∀ (s : Sess) (k : Nat), SessInv s →
+    SessInv (expire s done k).1 ∧ (expire s done k).2.isPanic = false := by
+  induction done with
+  | nil => intro s k inv; exact ⟨inv, rfl⟩
+  | cons sid rest ih =>
+    intro s k inv
+    simp only [expire]
+    cases hl : alookup sid s.req with
+    | none => exact ih s k inv
+    | some r =>
+      have hf := fire_inv s sid r 0 "dkg.pdkg.Loop|close|close(req.reply)" inv (alookup_mem sid s.req r hl)
+      simp only
+      cases ho : (fire s sid r 0 "dkg.pdkg.Loop|close|close(req.reply)") with
+      | mk s1 o =>
+        rw [ho] at hf
+        cases o with
+        | panic site => simp at hf
+        | ok i => exact ih s1 (k + 1) hf.1
+        | err e => exact ih s1 (k + 1) hf.1
+        | dropped => exact ih s1 (k + 1) hf.1
+
 theorem sessRun_inv (evs : List SessEv) : ∀ s, SessInv s →
     SessInv (sessRun Cfg.all s evs).1 ∧ ∀ o ∈ (sessRun Cfg.all s evs).2, o.isPanic = false := by
   induction evs with
@@ -551,6 +574,7 @@ theorem sessRun_inv (evs : List SessEv) : ∀ s, SessInv s →
       cases e with
       | msg sid it => simp only [sessStep, inv.alive, if_true]; exact handlePeerMsg_inv s sid it inv
       | req sid num => simp only [sessStep, inv.alive, if_true]; exact handleRequest_inv s sid num inv
+      | expire done => simp only [sessStep, inv.alive, if_true]; exact expire_inv done s 0 inv
     have := ih _ st.1
     refine ⟨this.1, ?_⟩
     intro o h
